@@ -364,11 +364,14 @@ static void do_bitseq() {
     std::string name;
     std::vector<unsigned> params;
   };
-  std::vector<Impl> impls = {{"RG", {2, 4, 20}}, {"RRR", {16, 32, 128}}, {"SDArray", {0}}, {"DArray", {0}}};
+  // RRR: even sampling rates as the dictionaries use them (16, 32, 128) and odd ones (3, 5, 33), whose
+  // class-sequence nibbles are aligned differently; the odd ones are driven with the boundary shapes only
+  std::vector<Impl> impls = {{"RG", {2, 4, 20}}, {"RRR", {16, 32, 128, 3, 5, 33}}, {"SDArray", {0}}, {"DArray", {0}}};
   int maxlen = thorough ? 12 : 9;
   for (auto &im : impls)
     for (unsigned prm : im.params) {
-      section("bitseq-" + im.name + "-" + std::to_string(prm) + "-exhaustive", [&] {
+      const bool odd = im.name == "RRR" && (prm & 1);
+      if (!odd || thorough) section("bitseq-" + im.name + "-" + std::to_string(prm) + "-exhaustive", [&] {
         int id = 0;
         for (int n = 1; n <= maxlen; n++)
           for (unsigned m = 0; m < (1u << n); m++) {
@@ -385,6 +388,9 @@ static void do_bitseq() {
         // around multiples of the sampling rate (RG: factor*32 bits per superblock; RRR: 15*rate bits)
         for (unsigned s : {prm * 32, prm * 32 + 1, prm * 15, prm * 15 + 1, prm * 30 + 1})
           if (s > 0 && s < (thorough ? 4000u : 700u)) lens.push_back((int)s);
+        if (im.name == "RRR")      // positions in the second and third sample group (15 * rate bits each)
+          for (unsigned s : {15 * (prm + 1) + 20, 30 * (prm + 1) + 20, 45 * prm + 7})
+            if (s < (thorough ? 8000u : 1300u)) lens.push_back((int)s);
         int id = 100000;
         for (int n : lens) {
           std::vector<int> z(n, 0), o(n, 1), alt(n), run(n, 0), rnd(n), sparse(n, 0), one(n, 0);
@@ -428,7 +434,11 @@ static void wt_one(const std::vector<uint> &sy, const std::string &impl, int id)
     uint maxc = 0;
     for (uint c : sy) maxc = std::max(maxc, c);
     std::string a, rk = "[", sl = "[";
-    for (size_t i = 0; i < n; i++) a += (i ? "," : "") + std::to_string(x->access(i));
+    // the built structure is asked access first; the loaded one rank / select first, smallest symbol first
+    // (a structure that keeps state between calls must not depend on what was asked before)
+    const bool access_first = std::string(when) == "built";
+    if (access_first)
+      for (size_t i = 0; i < n; i++) a += (i ? "," : "") + std::to_string(x->access(i));
     bool fr = true, fs = true;
     for (uint c = 0; c <= maxc; c++) {
       size_t cnt = 0;
@@ -443,6 +453,8 @@ static void wt_one(const std::vector<uint> &sy, const std::string &impl, int id)
         fs = false;
       }
     }
+    if (!access_first)
+      for (size_t i = 0; i < n; i++) a += (i ? "," : "") + std::to_string(x->access(i));
     fprintf(out, "{\"e\":\"SeqQ\",\"id\":%d,\"when\":\"%s\",\"access\":[%s],\"rank\":%s],\"select\":%s]}\n", id, when, a.c_str(), rk.c_str(), sl.c_str());
   };
   q(s, "built");
@@ -468,7 +480,7 @@ static void do_wt() {
           std::vector<uint> sy(n);
           long x = m;
           for (int i = 0; i < n; i++) {
-            sy[i] = 1 + x % 3;
+            sy[i] = (impl == "WT" ? 0 : 1) + x % 3;      // the pointer-based tree (Huffman shaped) also gets symbol 0
             x /= 3;
           }
           wt_one(sy, impl, id++);
@@ -481,7 +493,9 @@ static void do_wt() {
         size_t n = 1 + rng() % 300;
         uint sigma = 1 + rng() % (t % 2 ? 200 : 6);
         std::vector<uint> sy(n);
-        for (auto &c : sy) c = 1 + rng() % sigma;
+        const uint lo = (impl == "WT" && (t % 3) != 2) ? 0 : 1;
+        for (auto &c : sy) c = lo + rng() % sigma;
+        if (lo == 0 && n > 3) sy[0] = sy[n / 2] = 0;     // symbol 0 present and not the rarest
         wt_one(sy, impl, id++);
       }
     });
